@@ -169,7 +169,9 @@ impl PolicySet {
         let template_ventry = match self.templates.entry(t.id().clone()) {
             Entry::Vacant(ventry) => Some(ventry),
             Entry::Occupied(oentry) => {
-                if oentry.get() != &t {
+                // A static policy owns its template: an existing template under
+                // its id is an id conflict, even if the bodies are equal
+                if policy.is_static() || oentry.get() != &t {
                     return Err(PolicySetError::Occupied {
                         id: oentry.key().clone(),
                     });
